@@ -106,6 +106,7 @@ var subcommands = map[string]func(common){
 	"tbl-authresp":  func(c common) { table(c, tbldrv.AuthResponseCase) },
 	"tbl-codec":     func(c common) { table(c, tbldrv.CodecCase) },
 	"tbl-interop":   func(c common) { table(c, tbldrv.InteropCase) },
+	"tbl-keywiring": func(c common) { tbldrv.DiscWorldPath = c.world; table(c, tbldrv.KeyWiringCase) },
 	"tbl-usercode":  func(c common) { tbldrv.DiscWorldPath = c.world; table(c, tbldrv.UserCodeCase) },
 	"tbl-discovery": func(c common) { tbldrv.DiscWorldPath = c.world; table(c, tbldrv.DiscoveryCase) },
 	"tbl-isolation": func(c common) {
